@@ -892,6 +892,30 @@ def r01_13(ctx, p):
             # parameter of that name exists: approximated by 'some check can reach every write'
             ok = all(any(w in g.reachable([c]) for c in checks) for w in writes)
             ctx.check(ok, "R01.13", f.short, "check-precedes-write", message=f"{f.name}: the compatibility check does not precede the parameter write", how="check reaches the write")
+    # what the check compares against covers the parameters of template trials too: RDB compares with the rows of every earlier trial, the
+    # journal loops over all earlier trials of the study; the in-memory backend keeps a per-study table that only set_trial_param filled -
+    # so every field of InMemoryStorage that the check in set_trial_param reads must also be written on the template path of create_new_trial
+    imset = p.func(INMEM + ".set_trial_param")
+    checked_tables = set()
+    for c in own_nodes(imset.node):
+        if isinstance(c, ast.Call) and (dotted(c.func) or "").endswith("check_distribution_compatibility"):
+            for a in c.args:
+                for x in ast.walk(a):
+                    if isinstance(x, ast.Attribute) and isinstance(x.ctx, ast.Load) and x.attr not in ("_studies",) and "self._studies" in norm(x.value):
+                        checked_tables.add(x.attr)
+    ctx.require(checked_tables, "R01.13: what in-memory set_trial_param checks a distribution against was not recognised")
+    imc = p.func(INMEM + ".create_new_trial")
+    written = set()
+    for x in own_nodes(imc.node):
+        if isinstance(x, ast.Call) and isinstance(x.func, ast.Attribute) and x.func.attr in ("setdefault", "update") and isinstance(x.func.value, ast.Attribute):
+            written.add(x.func.value.attr)
+        if isinstance(x, ast.Subscript) and isinstance(x.ctx, ast.Store) and isinstance(x.value, ast.Attribute):
+            written.add(x.value.attr)
+    for tbl in sorted(checked_tables):
+        ctx.check(tbl in written, "R01.13", imc.short, f"template-distributions-enter-the-check-table:{tbl}",
+                  message=f"InMemoryStorage.set_trial_param checks a new distribution against self._studies[..].{tbl}, which create_new_trial never fills for a trial "
+                          f"created from a template: after add_trial / copy_study of a trial with x ~ Float(0, 1), set_trial_param('x', .., Float(0.1, 1, log=True)) is "
+                          f"accepted in memory and raises ValueError on RDB and journal", how=f"create_new_trial enters the template's distributions into {tbl}")
     rdbf = p.func(RDB + "._set_trial_param_without_commit")
     ctx.check(any(isinstance(c, ast.Call) and isinstance(c.func, ast.Attribute) and c.func.attr == "check_and_add" for c in own_nodes(rdbf.node)), "R01.13", rdbf.short,
               "uses-check_and_add", message="RDB parameter write bypasses TrialParamModel.check_and_add", how="check_and_add call")
